@@ -4,8 +4,11 @@ import TbotVerif.Model.Life
 
     The property is stated *declaratively* — no counter, no exit stack, no guard: a session's log
     is "begin the steps in the documented order up to the first one that raises; run the body iff
-    every step came up; tear down exactly what was begun, in reverse; the last exception raised
-    reaches the caller".  `Props/C13.lean` proves that the operational model of the code
+    every step came up; tear down exactly what was begun, in reverse — whatever the steps handle;
+    the caller gets the last tear-down fault that no step further out handled, else the set-up's or
+    the body's own exception (always: `Machine.__exit__` never swallows it)".  Without a handling
+    step that is "the last exception raised" (`Spec.C13plain`, `C13.spec_eq_plain`).
+    `Props/C13.lean` proves that the operational model of the code
     (`Life.run`) satisfies it; the harness evaluates it on the implementation's observation. -/
 
 namespace Life
@@ -82,21 +85,92 @@ def isSleep : Ev → Bool
 /-- the log without the `powercycle_delay` waits (C13 says nothing about them) -/
 def noSleep (t : List Ev) : List Ev := t.filter fun e => !isSleep e
 
+/-- the begin-callbacks a session reaches, split by unit (`units`: the steps that are one context
+    manager for `Machine.__enter__`): those of the units that STARTED (every begin-callback
+    returned), and those of the unit that failed, up to the callback that raised -/
+def splitInit (f : Faults) : List (List Step) → List Ev × List Ev
+  | [] => ([], [])
+  | u :: us =>
+    let b := u.flatMap beginEvs
+    if b.any (raises f) then ([], uptoFirst (raises f) b)
+    else (b ++ (splitInit f us).1, (splitInit f us).2)
+
+def startedInit (f : Faults) (steps : List Step) : List Ev := (splitInit f (units steps)).1
+def failedInit (f : Faults) (steps : List Step) : List Ev := (splitInit f (units steps)).2
+
+/-- the clean-up the unit that failed to come up does itself before the exception leaves it: the
+    `finally:` of `PowerControl._init_machine` around a failing `poweron()`; the exit of the
+    lab-host clone when `connect()` fails inside `ConsoleConnector._connect`.  Part of the failing
+    set-up step — no other step sees it. -/
+def ownCleanup (f : Faults) (steps : List Step) : List Ev := teardown f (failedInit f steps)
+
+/-- the tear-down of the units that were STARTED: what the exit stack runs, top first -/
+def stackTeardown (f : Faults) (steps : List Step) : List Ev := teardown f (startedInit f steps)
+
+/-- is the event the exit of a step whose context manager handles exceptions (step table `H`)? -/
+def handlesEv (H : Handles) : Ev → Bool
+  | .exit i => H i
+  | _ => false
+
+/-- the tear-down fault in flight after the tear-down callbacks `evs` (`p` before them): a callback
+    that raises replaces it, a handling step whose own exit does not raise clears it -/
+def pendingFault (f : Faults) (H : Handles) (evs : List Ev) (p : Option Tag) : Option Tag :=
+  evs.foldl (fun acc e => match faultTag f e with
+    | some x => some x
+    | none => if handlesEv H e then none else acc) p
+
+/-- the part of the log that belongs to the set-up and the body themselves -/
+def ownTrace (steps : List Step) (f : Faults) (body : List Op) : List Ev :=
+  let ini := expectedInit steps f
+  ini ++ (if ini.all (fun e => !raises f e) then expectedBody body else []) ++ ownCleanup f steps
+
+/-- the session's OWN exception: the last one raised by the set-up or by the body -/
+def ownExc (steps : List Step) (f : Faults) (body : List Op) : Option Tag :=
+  lastRaised f (ownTrace steps f body) none
+
+/-- the tear-down fault that reaches the caller: the last one raised by the tear-down of a started
+    step after which no handling step exits cleanly (`C13.pendingFault_eq_some_iff`) -/
+def survivingFault (steps : List Step) (f : Faults) : Option Tag :=
+  pendingFault f (handlesOf steps) (stackTeardown f steps) none
+
+/-- the exception that must reach the caller: a tear-down fault unless a step further out handled
+    it; else the set-up's / body's own exception — always, whatever the steps handle -/
+def expectedExc (steps : List Step) (f : Faults) (body : List Op) : Option Tag :=
+  (survivingFault steps f).or (ownExc steps f body)
+
 /-- C13 for one session -/
 def specSession (steps : List Step) (s : Session) (o : SObs) : Bool :=
   let t := expectedTrace steps s.f s.body
-  noSleep o.trace == t && o.exc == lastRaised s.f t none && o.rc == 0
+  noSleep o.trace == t && o.exc == expectedExc steps s.f s.body && o.rc == 0
 
 def specSessions (steps : List Step) : List Session → List SObs → Bool
   | [], [] => true
   | s :: ss, o :: os => specSession steps s o && specSessions steps ss os
   | _, _ => false
 
+/-- C13 for one session of a composition WITHOUT handling steps (the formulation before handling
+    steps were modelled): the last exception raised along the log reaches the caller -/
+def specSessionPlain (steps : List Step) (s : Session) (o : SObs) : Bool :=
+  let t := expectedTrace steps s.f s.body
+  noSleep o.trace == t && o.exc == lastRaised s.f t none && o.rc == 0
+
+def specSessionsPlain (steps : List Step) : List Session → List SObs → Bool
+  | [], [] => true
+  | s :: ss, o :: os => specSessionPlain steps s o && specSessionsPlain steps ss os
+  | _, _ => false
+
 end Life
 
 /-- **C13**: every session of the case, and the fault-free fresh entry after them, initialises
     in order up to the first fault, runs the body iff initialisation completed, tears down exactly
-    what was begun in reverse order, hands the last exception raised to the caller and leaves the
-    counter at zero.  (Ill-formed cases are not in the domain: `false`.) -/
+    what was begun in reverse order — every started step once, whatever the steps handle —, hands
+    to the caller the last tear-down fault not handled by a step further out, else the set-up's /
+    body's own exception, and leaves the counter at zero.  (Ill-formed cases are not in the
+    domain: `false`.) -/
 def Spec.C13 (c : Life.Case) (o : List Life.SObs) : Bool :=
   c.wf && Life.specSessions (Life.specOrder c.mro) (c.sessions ++ [Life.probe]) o
+
+/-- C13 as it was stated before handling steps were modelled ("hands the last exception raised to
+    the caller"); equal to `Spec.C13` on compositions without a handling step (`C13.spec_eq_plain`) -/
+def Spec.C13plain (c : Life.Case) (o : List Life.SObs) : Bool :=
+  c.wf && Life.specSessionsPlain (Life.specOrder c.mro) (c.sessions ++ [Life.probe]) o
